@@ -1,8 +1,10 @@
 #!/bin/bash
 # Build the Lean library, the property theorems and the native driver from files on disk only (offline).
+# Tables under lean/Pfst/Gen are regenerated from /repo's working tree first.
 set -e
 here="$(cd "$(dirname "${BASH_SOURCE[0]}")" && pwd)"
 cd "$here"
-/venv/bin/python -B -c "import sys; sys.path.insert(0, 'harness'); import framework; framework.gen_drv_index()"
+export PYTHONDONTWRITEBYTECODE=1
+/venv/bin/python -B harness/extract_all.py
 cd lean
 lake build driver Pfst 2>&1 | tail -5
